@@ -802,6 +802,18 @@ func writesOnlyIn(w *engine.World, c StructCheck) []structResult {
 				if r.Addr == v {
 					return "stores to it"
 				}
+				if _, isField := v.(*ssa.FieldAddr); r.Val == v && isField {
+					// the address of a field itself is kept in a local variable: follow what is done with it
+					if a, ok := r.Addr.(*ssa.Alloc); ok && a.Referrers() != nil {
+						for _, ar := range *a.Referrers() {
+							if ld, ok := ar.(*ssa.UnOp); ok && ld.Op == token.MUL {
+								if why := classify(ld, depth+1); why != "" {
+									return why
+								}
+							}
+						}
+					}
+				}
 			case *ssa.FieldAddr:
 				if why := classify(r, depth+1); why != "" {
 					return why
